@@ -224,6 +224,11 @@ func (c *Ctx) Violate(kind string, detail map[string]interface{}, format string,
 	}
 	if c.Replay {
 		fmt.Printf("  violated: [%s] %s\n", kind, v.Message)
+		if os.Getenv("VERIF_REPLAY_DETAIL") != "" {
+			if b, err := json.MarshalIndent(detail, "  ", " "); err == nil {
+				fmt.Printf("  detail: %s\n", b)
+			}
+		}
 	}
 }
 
